@@ -29,6 +29,10 @@ TRUSTED = [
     'Coq 8.16.1 kernel + vm_compute; Coq-Interval (its reflexive checker runs inside the kernel at every Qed of the generated goals)',
     'hand-written model coq/model/M_smooth.v; tie = the interval goals (stated about M_smooth.smooth / smoothing_matrix, reflected by proofs/P_C07_ivl.v) and the vm_compute correspondence model/K_C07.v of this run',
     'exact real arithmetic: log10 = ln/ln 10, sin, division; float rounding measured against 1e-10, not proved',
+    'source-text tie: translator/py2coq_c07.py (Python ast -> coq/gen/Gen_c07.v by symbolic execution, fail closed, re-run on every check) + the C07_*_is_source theorems: '
+    'trusted there is only the translator\'s reading of each accepted statement shape (coq/lib/PyRes.v: the (n,1) x (1,m) broadcasts read column by column, np.sum(.., axis=0), '
+    'the in-place column normalisation, np.dot, builtin max, np.where first/last, v[k] / np.take; operand lengths are stated by the generated *_shapes predicates, not checked) '
+    'and the object layer (which arrays .fa_spectrum / .smooth_fa_spectrum / .smooth_fa_frequencies hold); np.sin / np.log10 stay parameters of the generated definitions',
     '|complex amplitude| is taken by numpy in the harness for Signal spectra (the model receives the modulus)',
     'Python harness (generators, rational encoding, goal emission, parsing of @@OK/@@FAIL)',
 ]
@@ -217,6 +221,22 @@ def mod(A):
     return np.abs(A) if np.iscomplexobj(A) else A.astype(float)
 
 
+# ------------------------------------------------------------------ source-text tie
+def regen_c07():
+    """re-translate calc_smooth_fa_spectrum / generate_smooth_fa_spectrum / calc_smoothing_matrix_konno_1998 /
+    calc_smooth_fa_spectrum_w_custom_matrix / get_sig_array_indexes_range / get_sig_freq_range (eqsig/fns/frequency.py) and
+    calc_bandwidth_freqs / f_min / f_max (eqsig/im.py) into coq/gen/Gen_c07.v (fail closed): the `*_is_source` theorems of
+    Prop_C07 are then re-proved against the code that is in the repo now"""
+    import os, sys
+    try:
+        sys.path.insert(0, os.path.join(core.VERIF, 'translator'))
+        import py2coq_c07
+        py2coq_c07.regenerate(repo=core.REPO)
+    except Exception as e:
+        return 'py2coq_c07: %s: %s' % (type(e).__name__, e)
+    return None
+
+
 # ------------------------------------------------------------------ run
 def run(rep, rng, tier):
     import eqsig, time, warnings
@@ -224,7 +244,7 @@ def run(rep, rng, tier):
     warnings.simplefilter('ignore', RuntimeWarning)   # numpy's 0/0 warning for on-grid targets (the value is replaced by the code)
     timing = rep.extra.setdefault('timing_s', {})
     t0 = time.time()
-    rep.prove('Prop_C07', targets=['props/Prop_C07.vo', 'proofs/P_C07_ivl.vo', 'model/K_C07.vo'])
+    rep.prove('Prop_C07', targets=['props/Prop_C07.vo', 'proofs/P_C07_ivl.vo', 'model/K_C07.vo'], gen_failed=regen_c07())
     timing['prove'] = round(time.time() - t0, 1)
     t0 = time.time()
     S = IvlSet()
@@ -582,7 +602,7 @@ def run(rep, rng, tier):
 
 def finish(rep):
     return rep.finish(rule=RULE, trusted=TRUSTED, assumptions=['exact real arithmetic in the theorems; column of raw weights not identically zero (proved for on-grid targets and for targets with a Fourier frequency in the main lobe)'],
-                      checker_cmd='cd /verif/coq && make props/Prop_C07.vo proofs/P_C07_ivl.vo model/K_C07.vo && coqc (Print Assumptions on every theorem); '
+                      checker_cmd='translator/py2coq_c07.py /repo -> coq/gen/Gen_c07.v; cd /verif/coq && make props/Prop_C07.vo proofs/P_C07_ivl.vo model/K_C07.vo && coqc (Print Assumptions on every theorem); '
                                   'correspondence: coqc -Q /verif/coq EQ coq/run/C07_*.v (vm_compute) and coq/run/C07_ivl_*.v (interval goals, Qed)')
 
 
